@@ -281,6 +281,29 @@ def generate(repo, outdir_lean, outdir_json, write_if_changed):
                                     f"      Aoe.Props.C05.Diverge p q) : getAt q s1.root = getAt q s2.root :=\n"
                                     f"  (Aoe.Props.Links.edit_lands_only_there {mod}.classes fuel {cid} hist s s1 s2 vals1 vals2 {mod}.c{cid} rfl\n"
                                     f"    plainOnly_{mod}_{cname} pathsDistinct_{mod}_{cname} h1 h2 (fun _ _ => .error .shape)).2 q hq\n")
+        # every manager: construct after commit returns the (normalised) object - the whole class tree under it is `tableSafe`
+        for mid in mids:
+            cname = g.class_defs[mid][0]
+            laws_src.append(f"theorem tableSafe_{mod}_{cname} : Aoe.Props.CommitHolds.tableSafe {mod}.classes 4 {mid} 0 = true := by decide")
+            laws_src.append(f"/-- committing a {cname} (version {v}) and constructing it again from the resulting sections returns the object\n"
+                            f"(index links read from the history, links the version lacks `None`), whatever its values and however many objects it holds -/\n"
+                            f"theorem construct_after_commit_{mod}_{cname} (obj : Val) (s s' : Sections)\n"
+                            f"    (hwf : Aoe.Props.CommitHolds.WF {mod}.classes 4 {mid} [] obj)\n"
+                            f"    (h : commitObj {mod}.classes 4 {mid} [] obj s = .ok s') :\n"
+                            f"    constructObj {mod}.classes 4 {mid} [] s' = .ok (Aoe.Props.CommitHolds.normalize {mod}.classes 4 {mid} [] obj) :=\n"
+                            f"  Aoe.Props.CommitHolds.construct_after_commit {mod}.classes 4 {mid} [] obj s s' tableSafe_{mod}_{cname} hwf h\n")
+        # every class: each plain link reads back what was pushed (side conditions by `decide`); depth = number of index steps
+        for cid, (cname, links) in enumerate(g.class_defs):
+            depth = max([m2.group(1).count(".hidx") for l2 in links for m2 in [re.search(r"\.(?:plain|objs) \[([^\]]*)\]", l2)] if m2] + [0])
+            laws_src.append(f"theorem allPlainSafe_{mod}_{cname} : Aoe.Props.CommitFrame.allPlainSafe {mod}.classes 3 {mod}.c{cid} {depth} = true := by decide")
+            laws_src.append(f"/-- after the commit of a {cname} (version {v}) the retriever of every plain link holds the value that was pushed through it -/\n"
+                            f"theorem plain_values_{mod}_{cname} (hist : List Nat) (hh : hist.length = {depth}) (vals : List Val) (s s' : Sections)\n"
+                            f"    (h : commitObj {mod}.classes 4 {cid} hist (.strct vals) s = .ok s')\n"
+                            f"    (j a : Nat) (path : List PStep) (acts : List RefreshAct) (names : List Nat) (v : Val)\n"
+                            f"    (hl : {mod}.c{cid}.links[j]? = some (a, .plain path acts names)) (hv : vals[j]? = some v)\n"
+                            f"    (p : List Step) (hp : resolve hist path = some p) : getAt p s'.root = some v :=\n"
+                            f"  Aoe.Props.CommitFrame.commit_plain_values {mod}.classes 3 {cid} hist vals s s' {mod}.c{cid} rfl h\n"
+                            f"    (by rw [hh]; exact allPlainSafe_{mod}_{cname}) j a path acts names v hl hv p hp\n")
         # object-list links: the struct list ends up with as many records as there are objects (side conditions by `decide`)
         for cid, (cname, links) in enumerate(g.class_defs):
             for j, l in enumerate(links):
@@ -298,6 +321,40 @@ def generate(repo, outdir_lean, outdir_json, write_if_changed):
                                 f"      ∀ p, resolve hist path = some p → Aoe.Props.CommitFrame.ListLen p os.length s'.root :=\n"
                                 f"  Aoe.Props.CommitFrame.commit_objs_len_of_safe {mod}.classes 3 {cid} hist vals s s' {mod}.c{cid} rfl h {j}\n"
                                 f"    (by rw [hh]; exact listSafe_{mod}_{cname}_{j}) os hv\n")
+                mc = re.search(r"\[\{ dest := \(\.self (\d+)\), expr := \(\.len \(\.ref \(\.self \d+\)\)\) \}\] \[", l)
+
+                def _steps(txt):
+                    return [tuple(x.strip().lstrip(".").split()) for x in txt.split(",") if x.strip()]
+
+                def _pdiv(p_, q_):
+                    if not p_ or not q_:
+                        return False
+                    a_, b_ = p_[0], q_[0]
+                    if a_[0] == "fld" and b_[0] == "fld":
+                        return a_[1] != b_[1] or _pdiv(p_[1:], q_[1:])
+                    if a_[0] == "hidx" and b_[0] == "hidx":
+                        return a_[1] == b_[1] and _pdiv(p_[1:], q_[1:])
+                    return True
+                # the count is only the number of objects at the END of the commit when no link that is pushed later (= declared
+                # earlier) writes the count retriever itself (e.g. _PlayerUnits.unit_count is a link of its own: the object's value wins)
+                if mc:
+                    cpath = _steps(m_.group(1))[:-1] + [("fld", mc.group(1))]
+                    for l2 in links[:j]:
+                        m2 = re.search(r"\.(?:plain|objs) \[([^\]]*)\]", l2)
+                        if m2 and not _pdiv(_steps(m2.group(1)), cpath):
+                            mc = None
+                            break
+                if mc:
+                    laws_src.append(f"theorem countSafe_{mod}_{cname}_{j} : Aoe.Props.CommitFrame.countSafe {mod}.classes 3 {mod}.c{cid} {depth} {j} = true := by decide")
+                    laws_src.append(f"/-- after the commit of a {cname} (version {v}) the count retriever of its object-list link number {j} holds the number of objects -/\n"
+                                    f"theorem count_{mod}_{cname}_{j} (hist : List Nat) (hh : hist.length = {depth}) (vals : List Val) (s s' : Sections)\n"
+                                    f"    (h : commitObj {mod}.classes 4 {cid} hist (.strct vals) s = .ok s') (os : List Val) (hv : vals[{j}]? = some (.list os)) :\n"
+                                    f"    ∃ a path ccls defaults childNames guards names ci nm,\n"
+                                    f"      {mod}.c{cid}.links[{j}]? = some (a, .objs path ccls defaults childNames guards\n"
+                                    f"        [{{ dest := .self ci, expr := .len (.ref (.self nm)) }}] names) ∧\n"
+                                    f"      ∀ p, resolve hist path = some p → getAt (dropLastStep p ++ [Step.fld ci]) s'.root = some (.int os.length) :=\n"
+                                    f"  Aoe.Props.CommitFrame.commit_objs_count_of_safe {mod}.classes 3 {cid} hist vals s s' {mod}.c{cid} rfl h {j}\n"
+                                    f"    (by rw [hh]; exact countSafe_{mod}_{cname}_{j}) os hv\n")
         mods.append((v, mod))
         meta_all[v] = {"classes": g.meta, "managers": [c.__name__ for c in mgr_classes]}
     agg = "\n".join(f"import Aoe.Generated.{m}" for _, m in mods) + "\n/-! GENERATED by tools/gen_mgr.py -/\nnamespace Aoe.Generated\nopen Aoe.Commit\n"
@@ -305,7 +362,7 @@ def generate(repo, outdir_lean, outdir_json, write_if_changed):
     agg += "\n".join(f"  {'if' if i == 0 else 'else if'} v == \"{v}\" then some ({m}.classes, {m}.managers, {m}.secNames)" for i, (v, m) in enumerate(mods))
     agg += "\n  else none\nend Aoe.Generated\n"
     fn = os.path.join(outdir_lean, "MgrTables.lean"); write_if_changed(fn, agg); files.append(fn)
-    laws = ("import Aoe.Props.Links\nimport Aoe.Props.CommitFrame\nimport Aoe.Generated.MgrTables\n/-! GENERATED by tools/gen_mgr.py – `commit ∘ construct = id` instantiated at every generated class "
+    laws = ("import Aoe.Props.Links\nimport Aoe.Props.CommitFrame\nimport Aoe.Props.CommitHolds\nimport Aoe.Generated.MgrTables\n/-! GENERATED by tools/gen_mgr.py – `commit ∘ construct = id` instantiated at every generated class "
             "whose links are plain value links without refresh actions (side condition closed by `decide`). -/\n"
             "namespace Aoe.Generated.MgrLaws\nopen Aoe Aoe.Codec Aoe.Lens Aoe.Commit Aoe.Generated\n\n" + "\n".join(laws_src) + "\nend Aoe.Generated.MgrLaws\n")
     fn = os.path.join(outdir_lean, "MgrLaws.lean"); write_if_changed(fn, laws); files.append(fn)
